@@ -318,10 +318,11 @@ def tyExpr : Ty → Val
   | .callable none ret blk => callableVal [] (tyExprOpt blk) (tyExprOpt ret)
   | .callable (some (ts, sz)) ret blk => callableVal (tyExprsNU ts ++ tupleSizeVals ts.isEmpty sz) (tyExprOpt blk) (tyExprOpt ret)
   | .runtime rt name pat =>
-    -- `RuntimeType.Parameters`: nothing for the default Runtime only (since fix 1cd0d3f an empty runtime name is printed)
+    -- `RuntimeType.Parameters`: nothing for the default Runtime only (since fix 1cd0d3f an empty runtime name is printed);
+    -- the name is printed when it is not empty or a pattern follows (since fix f14f4ca)
     if rt.isEmpty ∧ name.isEmpty ∧ pat.isNone then tname .runtime []
     else
-      tname .runtime (Val.str rt :: ((if name.isEmpty then [] else [Val.str name]) ++
+      tname .runtime (Val.str rt :: ((if name.isEmpty ∧ pat.isNone then [] else [Val.str name]) ++
         (match pat with
          | some src => [tname .regexp (if src.isEmpty then [] else [.regexp src])]
          | none => [])))
